@@ -36,6 +36,8 @@ def check(case, ctx):
     tag = "Sg%d/%s" % (g.no, g.choice)
     if GR.touch_sibling(g.no, g.choice):
         ctx.event("sibling-setting-used-first")
+    ctx._sample_view = {"group": "%s (Sg%d, %s)" % (g.name, g.no, g.choice), "cell": B.cell, "sintlmin": B.smin, "sintlmax": B.smax,
+                        "call": repr(B.kw), "module": case["mod"], "allowed_reflections": len(B.allowed)}
     np.random.seed(case["npseed"])
     # history: an earlier identical call whose returned arrays the caller then overwrote in place
     if case.get("pick", 0) < 0.5:
